@@ -100,7 +100,7 @@ def elem_loops(F, f, stop=None, depth=2):
     """all element loops written in f (not in its closures)"""
     out = []
     eng = Engine(F, stop or (lambda n: False), depth, 3000)
-    consumers = ("for_each", "min", "max", "sum", "all", "any", "count", "try_for_each")
+    consumers = ("for_each", "min", "max", "sum", "all", "any", "count", "try_for_each", "fold")
     for b, t in f.calls():
         last = t["callee"].split("::")[-1]
         if t["callee"].startswith("std::iter::Iterator::") and last in consumers and t["args"]:
@@ -128,7 +128,11 @@ def elem_loops(F, f, stop=None, depth=2):
                     cp = [([], [ev], [], ev.res)]
                 if cp is not None:
                     bodies = [SPath(f, [b], atoms, events, stores, val, [b]) for atoms, events, stores, val in cp]
-            out.append(ElemLoop(f, b, last, leaves, item, bodies, extra={"adaptors": adaptors, "result": f.origin_call(b, t)}))
+            extra = {"adaptors": adaptors, "result": f.origin_call(b, t)}
+            if last == "fold" and len(t["args"]) == 3:
+                extra["fold_init"] = f.op_origin(t["args"][1])
+                extra["fold_fn"] = f.op_origin(t["args"][2])
+            out.append(ElemLoop(f, b, last, leaves, item, bodies, extra=extra))
     # `for` loops: a call to Iterator::next inside a CFG cycle whose result is matched on
     heads = back_edge_heads(f)
     for b, t in f.calls():
